@@ -312,6 +312,15 @@ func slice(x, lo, hi, max value) value {
 
 // lookup returns x[idx] where x is a map.
 func lookup(instr *ssa.Lookup, x, idx value) value {
+	if dm, ok := x.(*docMap); ok {
+		if dm == nil {
+			if instr.CommaOk {
+				return tuple{iface{}, false}
+			}
+			return iface{}
+		}
+		return dm.lookup(instr.CommaOk, idx)
+	}
 	switch x := x.(type) { // map or string
 	case map[value]value, *hashmap:
 		var v value
@@ -824,9 +833,31 @@ func eqnil(t types.Type, x, y value) bool {
 		// Since these types don't support comparison,
 		// one of the operands must be a literal nil.
 		switch x := x.(type) {
+		case *docMap:
+			if yd, ok := y.(*docMap); ok {
+				return (x != nil) == (yd != nil)
+			}
+			return x == nil
+		case *symMap:
+			if yd, ok := y.(*symMap); ok {
+				return (x != nil) == (yd != nil)
+			}
+			return x == nil
 		case *hashmap:
+			if _, ok := y.(*docMap); ok {
+				return x == nil && y.(*docMap) == nil
+			}
+			if _, ok := y.(*symMap); ok {
+				return x == nil && y.(*symMap) == nil
+			}
 			return (x != nil) == (y.(*hashmap) != nil)
 		case map[value]value:
+			if yd, ok := y.(*docMap); ok {
+				return x == nil && yd == nil
+			}
+			if yd, ok := y.(*symMap); ok {
+				return x == nil && yd == nil
+			}
 			return (x != nil) == (y.(map[value]value) != nil)
 		case *ssa.Function:
 			switch y := y.(type) {
@@ -996,6 +1027,11 @@ func callBuiltin(caller *frame, callpos token.Pos, fn *ssa.Builtin, args []value
 
 	case "delete": // delete(map[K]value, K)
 		switch m := args[0].(type) {
+		case *docMap:
+			if m != nil {
+				m.deleted[args[1].(string)] = true
+			}
+			return nil
 		case map[value]value:
 			delete(m, args[1])
 		case *hashmap:
@@ -1029,6 +1065,11 @@ func callBuiltin(caller *frame, callpos token.Pos, fn *ssa.Builtin, args []value
 			panic(unsupported("len of symbolic non-string"))
 		case *docMap:
 			return x.length()
+		case *symMap:
+			if x == nil {
+				return 0
+			}
+			return len(x.keys)
 		case string:
 			return len(x)
 		case array:
